@@ -223,7 +223,7 @@ theorem struct_contained {f : Nat} {ps : List Field} {deny : Bool} {kvs : List (
     (h2 : seStruct σ (f + 1) ps fs = .ok es) :
     containedObj (pruneObj kvs) (pruneObj es) = true := by
   obtain ⟨hfl, hnd, _, _⟩ := fieldsOk_unpack σ hok
-  simp only [declaredStruct, Bool.and_eq_true] at hd
+  simp only [declaredStruct, hfl, Bool.false_eq_true, if_false, Bool.and_eq_true] at hd
   obtain ⟨hndk, hall⟩ := hd
   have hm := deStruct_obj_step x σ hfl h1
   simp only [seStruct] at h2
